@@ -124,7 +124,13 @@ func (an *Analyzer) analyzeFunc(fn *ssa.Function, f *Frame, in *State, final boo
 			fmt.Fprintf(os.Stderr, "%s iter %d in %s work=%d\n", strings.Repeat(" ", f.depth), iter, fn.Name(), len(work))
 		}
 		if iter > 2000 {
-			an.Warnings = append(an.Warnings, "fixpoint bound reached in "+fn.String())
+			top := ""
+			for _, bb := range fn.Blocks {
+				if ins[bb.Index].visits > 20 {
+					top += fmt.Sprintf(" b%d(%s)x%d/%dparts", bb.Index, bb.Comment, ins[bb.Index].visits, len(ins[bb.Index].parts))
+				}
+			}
+			an.Warnings = append(an.Warnings, "fixpoint bound reached in "+fn.String()+":"+top)
 			an.failAll = true
 			break
 		}
@@ -255,8 +261,37 @@ func (an *Analyzer) analyzeFunc(fn *ssa.Function, f *Frame, in *State, final boo
 				for _, n := range np {
 					an.purgeLoopLocal(n, f, loopMarks[succ.Index], loopBlocks[succ.Index])
 				}
+				// the purge can remove the very terms two partitions differed in: partitions that now carry the same
+				// key are one partition (left apart they multiply until the partition bound folds everything, and the
+				// header state oscillates instead of converging)
+				dup := false
+				seenKey := map[string]bool{}
+				for _, n := range np {
+					k := n.partKey()
+					if seenKey[k] {
+						dup = true
+					}
+					seenKey[k] = true
+				}
+				if dup {
+					np = an.groupJoin(np, fmt.Sprintf("%s:b%d@%p:regroup", f.key, succ.Index, succ))
+				}
 			}
 			if !sameParts(sin.parts, np) {
+				if os.Getenv("VERIF_OBL_DIFF") != "" && sin.visits > 20 && len(sin.parts) != len(np) {
+					var ks []string
+					for _, n := range np {
+						ks = append(ks, n.partKey())
+					}
+					fmt.Fprintf(os.Stderr, "DIFF %s b%d visit %d parts %d -> %d %q\n", fn.Name(), succ.Index, sin.visits, len(sin.parts), len(np), ks)
+				}
+				if os.Getenv("VERIF_OBL_DIFF") != "" && sin.visits > 20 && len(sin.parts) == len(np) {
+					for i := range np {
+						if !equalStates(sin.parts[i], np[i]) {
+							fmt.Fprintf(os.Stderr, "DIFF %s b%d visit %d part %d: %s\n", fn.Name(), succ.Index, sin.visits, i, diffStates(sin.parts[i], np[i]))
+						}
+					}
+				}
 				sin.parts = np
 				if !inWork[succ] {
 					inWork[succ] = true
